@@ -170,7 +170,7 @@ Reach(adj, S) == LET T == S \cup Nbrs(adj, S) IN IF T = S THEN S ELSE Reach(adj,
 
 \* connected components (>= 2 members) that contain a node of `roots`
 Components(adj, roots) ==
-    LET start == {x \in roots : \E e \in adj : e[1] = x}
+    LET start == roots \cap {e[1] : e \in adj}
         acc   == FoldLeft(LAMBDA a, x : IF x \in a.seen THEN a
                                         ELSE LET c == Reach(adj, {x})
                                              IN  [nets |-> a.nets \cup {c}, seen |-> a.seen \cup c],
